@@ -11,7 +11,7 @@ from implutil import snapshot, dtype_info
 import langs
 from impl_C06 import distinct_values
 
-MODES = ('rel', 'base', 'abs')
+MODES = ('rel', 'base', 'abs', 'both')      # both: abspath=True AND a basepath (abspath wins)
 ORIGIN0 = {'darr', 'numpymemmap', 'idl'}
 NODIMS = {'scilab', 'mathematica', 'idl'}      # an empty range result has no dimensions there
 WORDS = ['first', 'second', 'third']
@@ -113,7 +113,8 @@ def ragged(case, d):
     for lang in sorted(readcodefunc.keys()):
         codes[lang] = {}
         for mode in MODES:
-            kw = dict(rel={}, base=dict(basepath='sub/ra.darr'), abs=dict(abspath=True))[mode]
+            kw = dict(rel={}, base=dict(basepath='sub/ra.darr'), abs=dict(abspath=True),
+                      both=dict(abspath=True, basepath='zzz'))[mode]
             try:
                 codes[lang][mode] = ra.readcode(lang, **kw)
             except Exception as e:
@@ -125,11 +126,11 @@ def ragged(case, d):
     if sum(case['lens']) == 0:
         n = 0            # no value at all: only "running the code changes no file" applies (property scope)
     for lang in out['languages']:
-        for mode in MODES if case.get('allmodes') else ('rel', 'abs') if rng.random() < 0.5 else ('base',):
+        for mode in MODES if case.get('allmodes') else ('rel', 'abs') if rng.random() < 0.5 else ('base', 'both'):
             code = codes[lang][mode]
             if code is None or code.startswith('!!raised'):
                 fails.append(dict(lang=lang, mode=mode, kind='listed-but-withheld', detail=str(code)[:200])); continue
-            cwd = dict(rel=path, base=d, abs=d)[mode]
+            cwd = dict(rel=path, base=d, abs='/', both='/')[mode]      # absolute paths must work from anywhere
             k0 = min(2, n - 1)
             # the example's comment must name the subarray it binds
             m = re.search(r'(first|second|third) \(k=(\d+)\)', code)
